@@ -85,3 +85,49 @@ def alias_kinds(model, payload):
     if bad:
         return {"reproduced": True, "detail": "; ".join(bad), "inputs": {"legacy_refs": list(cases)}}
     return {"reproduced": False, "detail": "legacy references decode with the codec of the same kind"}
+
+
+def commit_type_history(model, payload):
+    """sync_paths under every history of commit types over the same directories: after a commit of type t the
+    postcondition of t holds (record names the key; 'full': byte-identical copy; 'links only': no object written;
+    'none': nothing written), and fetch_paths resolves the record -- also through a store object that resolved the
+    path before the re-commit"""
+    import itertools
+    from collections import OrderedDict
+    from dds.codecs.databricks import DBFSStore, DBFSURI, CommitType
+
+    cts = (("full", CommitType.FULL), ("links_only", CommitType.LINK_ONLY), ("none", CommitType.NO_COMMIT))
+    for hist in itertools.product(cts, repeat=3):
+        for keys in (("k1", "k1", "k1"), ("k1", "k2", "k1"), ("k1", "k2", "k2")):
+            db = FakeDbutils()
+            stores = {}
+            tag = "commit types %s, keys %s" % ([h[0] for h in hist], list(keys))
+            for (ct_name, ct), k in zip(hist, keys):
+                st = stores.setdefault(ct_name, DBFSStore(DBFSURI.parse("dbfs:/int"), DBFSURI.parse("dbfs:/data"), db, ct))
+                for kk in ("k1", "k2"):
+                    if not st.has_blob(kk):
+                        st.store_blob(kk, "value of " + kk, None)
+                before = dict(db.fs.files)
+                try:
+                    st.sync_paths(OrderedDict([("/h/p", k)]))
+                except BaseException as e:
+                    return {"reproduced": True, "detail": "[%s] sync_paths raised %s: %s" % (tag, type(e).__name__, e), "inputs": {"history": tag}}
+                data = {p: v for p, v in db.fs.files.items() if p.startswith("dbfs:/data/")}
+                bad = None
+                if ct == CommitType.NO_COMMIT:
+                    if db.fs.files != before:
+                        bad = "a 'none' commit changed %s" % sorted(set(db.fs.files) ^ set(before))
+                else:
+                    try:
+                        got = dict(st.fetch_paths(["/h/p"]))
+                    except BaseException as e:
+                        got = "<%s>" % type(e).__name__
+                    if got != {"/h/p": k}:
+                        bad = "after the %s commit of /h/p -> %s the record resolves to %r" % (ct_name, k, got)
+                    elif ct == CommitType.FULL and data.get("dbfs:/data/h/p") != ("value of " + k).encode("utf-8"):
+                        bad = "after the 'full' commit of /h/p -> %s the data directory holds %r at the path, not a copy of the result" % (k, data.get("dbfs:/data/h/p"))
+                    elif ct == CommitType.LINK_ONLY and data.get("dbfs:/data/h/p") != before.get("dbfs:/data/h/p"):
+                        bad = "a 'links only' commit wrote the object at the path"
+                if bad:
+                    return {"reproduced": True, "detail": "[%s] %s" % (tag, bad), "inputs": {"history": tag}}
+    return {"reproduced": False, "detail": "81 commit-type histories x 3 key sequences satisfy the postcondition of each commit"}
